@@ -19,7 +19,17 @@ for q, f in sorted(ix.functions.items()):
 memo = {q: exits.memoised_mutable(f.node) for q, f in sorted(ix.functions.items()) if exits.memoised_mutable(f.node)}
 narrow = {q: [k for k, _ in exits.narrowing_casts(f.node)] for q, f in sorted(ix.functions.items()) if exits.narrowing_casts(f.node)}
 decos = {q: exits.decorator_texts(f.node) for q, f in sorted(ix.functions.items()) if exits.decorator_texts(f.node)}
-json.dump({"memoised": memo, "narrowing": narrow, "decorators": decos, "instance_state": exits.instance_state(ix), "_comment": "pinned tree: function -> subjects (root symbols) of its rejection conditions (raise path conditions, assert tests); `readable` is for humans",
+rp = exits.rejecting_properties(ix)
+eager = {q: sorted(a for a in exits.eager_attr_reads(f.node) if a in rp) for q, f in sorted(ix.functions.items())}
+eager = {q: v for q, v in eager.items() if v}
+import ast as _ast
+nml = {}
+for m in ix.modules.values():
+    for name, node in m.assign_nodes.items():
+        ks = [k for k, _ in exits.narrowing_casts(_ast.Module(body=[node], type_ignores=[]))]
+        if ks:
+            nml[f"{m.name}.{name}"] = ks
+json.dump({"memoised": memo, "eager_rejecting_reads": eager, "narrowing_module_level": nml, "narrowing": narrow, "decorators": decos, "instance_state": exits.instance_state(ix), "_comment": "pinned tree: function -> subjects (root symbols) of its rejection conditions (raise path conditions, assert tests); `readable` is for humans",
            "commit": os.popen(f"git -C {repo} rev-parse --short HEAD").read().strip(), "functions": out, "readable": readable},
           open(os.path.join(ROOT, "reference", "exits.json"), "w"), indent=0)
 print(len(memo), "memoised functions with mutable results;", len(out), "functions,", sum(1 for v in out.values() if v), "with rejection conditions,", sum(len(v) for v in out.values()), "atoms")
